@@ -10,19 +10,32 @@ META = {
             "stackCheck/drop/dup/swap) and data.Array (Get/Set/SetAlways/Append/GetSlice/GetSliceAsArray/SetSize/Delete): for EVERY "
             "token list / array size, EVERY call sequence and EVERY operand (negative, huge, wrapping, forged frames) the run "
             "ends without a Go panic (Go's index, slice and make are partial operations in an Except monad; proofs by induction "
-            "over the call sequence with a bounds invariant). Tied to the code by (T2) differential runs of random call sequences "
+            "over the call sequence with a bounds invariant). Also proved, over a model of data.Channel on Go's native channel "
+            "(FIFO wait queues; `ch <- v` on a closed channel and close of a closed channel are panics, also for a sender that is "
+            "already PARKED when another goroutine closes): for EVERY channel size and EVERY schedule of Send/Receive/Close/Len/"
+            "Cap/IsOpen/IsEmpty calls made by concurrent goroutines no Go panic leaves a call (invariant isOpen = !closed, and "
+            "Send's deferred recover; C07_chan_norecover_counterexample: without a working recover the parked sender kills the "
+            "process). Tied to the code by (T2c) deterministic schedules on the real data.Channel under testing/synctest, one "
+            "goroutine per call, completions per step compared with the model, plus a racing hammer (senders, receivers, two "
+            "closers, prober at a barrier) whose oracle is: no panic reaches the top of a goroutine, exactly one Close wins, "
+            "every value whose Send returned nil is received exactly once; by (T2) differential runs of random call sequences "
             "against the real functions under recover() and (T1) a go/ast pass that lists every raw index/slice on X.Tokens / "
             "c.stack and every raw write to TokenP/stackPointer/framePointer OUTSIDE the modelled functions; the generated Lean "
             "obligation is that this list equals the committed, reviewed allow-list. "
             "SEARCH (fuzzing, not proof): in-process compile+run through executeAdminEgo (the /admin/run worker, also fed line by "
             "line REPL-style) and the `ego test` pipeline of a nasty corpus, token-level mutations of tests/*.ego, generated "
-            "programs aimed at partial operations, byte noise and deep nesting, under recover(), a SIGINT deadline and a heap "
+            "programs aimed at partial operations, concurrent programs (goroutines + channels + sync: senders and receivers parked "
+            "while another goroutine closes, double close, close racing sends, closed and nil channels), byte noise and deep "
+            "nesting, under recover(), a SIGINT deadline and a heap "
             "watchdog, in child processes so that runtime fatals (stack overflow) are attributed to an input.",
     "note": "trusted: Lean kernel; tools/extract_c07 (go/ast, syntactic: field names Tokens/stack/TokenP/stackPointer/framePointer); "
             "the T2 harnesses; the reviewed allow-list (lean/EgoVerif/C07/Sites.lean) — its entries are reviewed, not proved. "
             "Modelled, not verified: slice capacity (the model checks slice bounds against len, Go against cap>=len); slices have "
             "< 2^63 elements; Pop's Immutable unwrapping, symbol-table and profiling side effects of callFramePush/Pop; array element "
-            "type coercion in Array.Set (elements are ints in range). NOT covered by any proof: nil dereferences, type assertions, "
+            "type coercion in Array.Set (elements are ints in range); the channel model takes one call at a time (a call completes "
+            "or parks before the next starts; the window INSIDE Send between the IsOpen test and the native send is not a step "
+            "of the model — only the racing hammer and the concurrent Ego programs reach it), values are ints, "
+            "trace logging and String() are not modelled. NOT covered by any proof: nil dereferences, type assertions, "
             "unbounded recursion and every other crash path in the ~40 kLoC that call the primitives — those are only searched. "
             "The real REPL reader (commands/run.go line continuation on stdin) and the HTTP layer of /admin/run are not driven; "
             "their workers are. The model mirrors the code WITH fixes/C07.patch (guards in callFramePop, readStackByteCode, "
@@ -37,7 +50,8 @@ META = {
 }
 
 REQUIRED = ["C07_cursor_total", "C07_cursor_no_panic", "C07_stack_total", "C07_stack_no_panic",
-            "C07_array_total", "C07_array_no_panic", "C07_array_get_out_of_range", "C07_stack_unfixed_counterexample"]
+            "C07_array_total", "C07_array_no_panic", "C07_array_get_out_of_range", "C07_stack_unfixed_counterexample",
+            "C07_chan_step_total", "C07_chan_no_panic", "C07_chan_close_wakes", "C07_chan_norecover_counterexample"]
 
 
 def translator(ctx):
@@ -71,19 +85,22 @@ def record(ctx, fails, per_class=3):
 
 def run(ctx):
     ctx.trusted += ["translator tools/extract_c07 (go/ast, fails closed on parse errors)",
-                    "harnesses zz_verif_c07*_test.go in tokenizer/, bytecode/, server/admin/ + egodriver C07",
+                    "harnesses zz_verif_c07*_test.go in tokenizer/, bytecode/, data/, server/admin/ + egodriver C07",
                     "allow-list lean/EgoVerif/C07/Sites.lean (reviewed by hand)"]
     ctx.assumptions += ["a Go slice has fewer than 2^63 elements (x+1 on an index below len does not wrap)",
+                        "Go's native channel behaves as modelled (FIFO wait queues, a parked sender panics when the channel is closed); "
+                        "testing/synctest.Wait returns only when every goroutine of the schedule has finished or is parked",
                         "compiled programs reach the stack only through the modelled functions and the allow-listed sites",
                         "the fuzz search is a search: absence of a panic in N cases is not a proof for the compiler/VM"]
-    ctx.lean_audit(modules=["EgoVerif.C07.Props", "EgoVerif.C07.Sites"], required=REQUIRED)
+    ctx.lean_audit(modules=["EgoVerif.C07.Props", "EgoVerif.C07.ChanProps", "EgoVerif.C07.Sites"], required=REQUIRED)
     if not ctx.quick:
         ctx.leanchecker()
     ctx.prepare_tree()
     translator(ctx)
 
     cases = []
-    for pkg, pre in (("./internal/language/tokenizer/", "c07_cur"), ("./internal/language/bytecode/", "c07_vm")):
+    for pkg, pre in (("./internal/language/tokenizer/", "c07_cur"), ("./internal/language/bytecode/", "c07_vm"),
+                     ("./internal/language/data/", "c07_chan")):
         rc, out = ctx.go_test(pkg, "TestVerifC07", timeout=3000)
         if rc != 0:
             ctx.log(out[-3000:])
@@ -103,22 +120,35 @@ def run(ctx):
 
     def st(name):
         return (ctx.read_jsonl(name) or [{}])[0]
-    cur, vm, fz = st("c07_cur_stats.json"), st("c07_vm_stats.json"), st("c07_stats.json")
+    cur, vm, fz, chn = st("c07_cur_stats.json"), st("c07_vm_stats.json"), st("c07_stats.json"), st("c07_chan_stats.json")
+    cc = chn.get("counters", {})
+    if not ctx.replay_in and (cc.get("schedules_close_meets_parked_sender", 0) == 0 or cc.get("hammer_rounds", 0) == 0):
+        ctx.broken.append("channel harness: no schedule closed a channel with a parked sender / no hammer round ran")
+    # (a search child that died took its unsaved counters with it: then the deaths are the evidence)
+    if (fz.get("counters", {}).get("gen.conc", 0) + fz.get("counters", {}).get("gen.concgen", 0) == 0
+            and fz.get("counters", {}).get("child_deaths", 0) == 0 and not ctx.replay_in):
+        ctx.broken.append("search harness ran no concurrent program")
     fc = fz.get("counters", {})
     if fc.get("cases", 0) == 0:
         ctx.broken.append("search harness executed no case")
     ctx.coverage.update({
         "evaluations": len(cases) + fc.get("cases", 0),
         "primitive_call_sequences": len(cases),
-        "primitive_calls": cur.get("counters", {}).get("calls", 0) + vm.get("counters", {}).get("calls", 0),
+        "primitive_calls": cur.get("counters", {}).get("calls", 0) + vm.get("counters", {}).get("calls", 0) + cc.get("calls", 0),
+        "channel_schedules": cc.get("schedules", 0),
+        "channel_schedules_close_meets_parked_sender": cc.get("schedules_close_meets_parked_sender", 0),
+        "channel_hammer_rounds": cc.get("hammer_rounds", 0),
+        "fuzz_concurrent_programs": fc.get("gen.conc", 0) + fc.get("gen.concgen", 0),
         "fuzz_cases": fc.get("cases", 0),
         "distinct_nontrivial": cur.get("counters", {}).get("distinct_nontrivial", 0) + vm.get("counters", {}).get("distinct_nontrivial", 0)
+                               + cc.get("distinct_nontrivial", 0)
                                + fc.get("distinct_nontrivial", 0),
         "distinct_nontrivial_fuzz": fc.get("distinct_nontrivial", 0),
         "rule": "primitive sequences: distinct sequences of >=3 (cursor, over >=2 tokens) / >=4 (stack, array) calls with operands from "
                 "{MinInt64, MinInt64+1, -5..3, len-1..len+2, 999999, 2^62, MaxInt64-1, MaxInt64} and forged frames; "
+                "channel schedules: distinct schedules of >=3 calls with a Send in which at least one call parks; "
                 "fuzz: distinct (mode, text) with >=4 tokens incl. a bracket and a word. The fuzz part is a SEARCH.",
-        "samples": (cur.get("samples", [])[:2] + vm.get("samples", [])[:2] + fz.get("samples", [])[:4]),
-        "counters": {"cursor": cur.get("counters", {}), "vm": vm.get("counters", {}), "fuzz": fc},
+        "samples": (cur.get("samples", [])[:2] + vm.get("samples", [])[:2] + chn.get("samples", [])[:2] + fz.get("samples", [])[:4]),
+        "counters": {"cursor": cur.get("counters", {}), "vm": vm.get("counters", {}), "channel": cc, "fuzz": fc},
     })
     return ctx.finish()
